@@ -224,6 +224,8 @@ Inductive fin :=
 | FCreateOCSlice (ru : rule) (b : Z) (vs : list rec)
     (* Clauses(OnConflict{...}).Create(&slice) (b = 0) / CreateInBatches(&slice, b) *)
 | FCreateU (ru : rule) (tgt : bool) (v : rec)
+| FCreateMaps (ru : rule) (ms : list (list (col * val)))
+    (* Model(&Acct{}).Clauses(OnConflict{...}).Create(map / *map: one element; []map / *[]map) *)
 (* the same finishers on a model type with a COMPOSITE primary key (id, region) — harness type
    Stock{ID, Region, Qty, Note}, encoded in [rec] as (r_id, r_name = region, r_age = qty, r_email = note),
    no tracked times, no soft delete; rows are kept in insertion (rowid) order *)
@@ -391,6 +393,58 @@ Definition save_slice_run (t : table) (now : Z) (vs : list rec) : table * list r
 Definition create_slice_run (t : table) (now : Z) (ru : rule) (vs : list rec) : table * Z :=
   fold_left (fun acc v => let r := create (fst acc) now (Some ru) v in (res_tbl r, snd acc + res_ra r)) vs (t, 0).
 
+(* ---- Create from MAP values ------------------------------------------------------------------------------
+   Model(&Acct{}).Clauses(OnConflict{...}).Create(map | *map | []map | *[]map): ConvertToCreateValues takes
+   the INSERT's columns from the map keys (a slice: the union of the keys, a missing key is NULL), fills no
+   tracked time, and the UpdateAll expansion runs over exactly these columns: every one but the primary key
+   and autoCreateTime is set from the excluded row, an autoUpdateTime column among them is set to now; with
+   nothing left to set the rule degenerates to DO NOTHING.  A NULL column reads back as the zero value. *)
+Definition map_rec (m : list (col * val)) : rec := set_pairs m zero_rec.
+Definition named (ks : list col) (c : col) : bool := existsb (col_eqb c) ks.
+Definition mall_cols (ks : list col) : list col :=
+  filter (fun c => match c with CId | CCat | CUat => false | _ => true end) ks.
+Fixpoint moc_apply (now : Z) (ru : rule) (ks : list col) (ex old : rec) : rec :=
+  match ru with
+  | RNothing => old
+  | RUpdates cols => copy_cols cols ex old
+  | RAll => let o1 := copy_cols (mall_cols ks) ex old in if named ks CUat then with_uat now o1 else o1
+  | RWhere k r => if r_age old <? k then moc_apply now r ks ex old else old
+  | RTarget _ r => moc_apply now r ks ex old
+  end.
+Fixpoint mrule_fires (ru : rule) (ks : list col) (old : rec) : bool :=
+  match ru with
+  | RNothing => false
+  | RUpdates _ => true
+  | RAll => match mall_cols ks with [] => named ks CUat | _ => true end
+  | RWhere k r => (r_age old <? k) && mrule_fires r ks old
+  | RTarget _ r => mrule_fires r ks old
+  end.
+(* one VALUES row [m] of an INSERT over the columns [ks]; nothing is handed back (res_ret is not observed) *)
+Definition create_map (t : table) (now : Z) (ru : rule) (ks : list col) (m : list (col * val)) : result :=
+  let ex := map_rec m in
+  if r_id ex =? 0 then mk_result zero_rec 1 false 1 (insert t (with_id (next_id t) ex))
+  else match lookup t (r_id ex) with
+       | None => mk_result zero_rec 1 false 1 (insert t ex)
+       | Some old =>
+           if mrule_fires ru ks old
+           then mk_result zero_rec 1 false 1 (upd_where (fun x => r_id x =? r_id ex) (moc_apply now ru ks ex) t)
+           else mk_result zero_rec 0 false 1 t
+       end.
+Definition map_keys (ms : list (list (col * val))) : list col := flat_map (map fst) ms.
+(* UpdateAll over columns that leave nothing to set becomes DO NOTHING but keeps OnConflict.Where: the statement
+   reads "... DO NOTHING WHERE ..." and the database rejects it (known finding update-all-nothing-where) *)
+Fixpoint all_is_nothing (ru : rule) (ks : list col) : bool :=
+  match ru with
+  | RAll => match mall_cols ks with [] => negb (named ks CUat) | _ => false end
+  | RTarget _ r => all_is_nothing r ks
+  | _ => false
+  end.
+Definition where_on_nothing (ru : rule) (ks : list col) : bool :=
+  match ru with RWhere _ r => all_is_nothing r ks | _ => false end.
+Definition create_maps_run (t : table) (now : Z) (ru : rule) (ms : list (list (col * val))) : table * Z :=
+  fold_left (fun acc m => let r := create_map (fst acc) now ru (map_keys ms) m in (res_tbl r, snd acc + res_ra r))
+            ms (t, 0).
+
 (* ---- composite primary key (id, region) ---------------------------------------------------------------- *)
 Definition ckey_eq (a b : rec) : bool := (r_id a =? r_id b) && String.eqb (r_name a) (r_name b).
 Definition clookup (t : table) (v : rec) : option rec := find (ckey_eq v) t.
@@ -449,6 +503,9 @@ Definition step (keep : bool) (t : table) (now : Z) (ch : list cel) (f : fin) : 
                      mk_result (last (snd run) zero_rec) (Z.of_nat (length vs)) false 1 (fst run)
   | FSaveOmit os v => save_omit t now os v
   | FCreateU ru tgt v => create_u t now ru tgt v
+  | FCreateMaps ru ms =>
+      if where_on_nothing ru (map_keys ms) then mk_result zero_rec 0 true 1 t
+      else let run := create_maps_run t now ru ms in mk_result zero_rec (snd run) false 1 (fst run)
   | FCSave v => csave t v
   | FCSaveSlice vs => let run := csave_slice t vs in mk_result zero_rec (snd run) false 1 (fst run)
   | FCCreateOC ru v => ccreate t (Some ru) v
